@@ -201,6 +201,10 @@ func c18GenStructs(r *Rand) []c18Struct { return c18GenStructsFrom(r, false) }
 // clash: names are drawn with repetition, the names of the interfaces among them
 func c18GenStructsFrom(r *Rand, clash bool) []c18Struct {
 	names := []string{"Point", "Foo", "T_1", "List<double>", "Map<K>", "Info2", "a", "i", "anything", "int8_t", "strange"}
+	if r.Chance(35) {
+		// names that are different names and the same Go identifier once cleaned (the case of the first letter)
+		names = []string{"Point", "point", "foo", "Foo", "T_1", "t_1", "Info2", "info2", "a", "A", "strange"}
+	}
 	for i := len(names) - 1; i > 0; i-- {
 		j := r.Intn(i + 1)
 		names[i], names[j] = names[j], names[i]
